@@ -524,8 +524,8 @@ def gen_iface(rng, name, nfuncs, features, max_depth, max_params, imported, no_s
     finding of its own, see known_findings.jsonl C05 / README):
       * imported: no fixed-length list of non-`Copy` elements in parameter position
         (the generated lowering moves out of the array by index),
-      * no_string_results (raw_strings worlds, exported interface): no string below a result
-        (the generated lowering calls `Vec<u8>::into_bytes`)."""
+      * no_string_results: no string below a result (was needed for raw_strings worlds before /repo
+        6e4603d; kept as an option, unused)."""
     g = witgen.Gen(rng, max_depth=max_depth, features=set(features))
     funcs = []
     for i in range(nfuncs):
@@ -572,9 +572,9 @@ def gen_iface(rng, name, nfuncs, features, max_depth, max_params, imported, no_s
 
 def gen_world_text(rng, k, features, config="", nfuncs=4, max_depth=3, max_params=5):
     """package `t:w<k>` with world `w`.  Shapes: {import i, export j} | {import i, export i}."""
-    raw = "raw=1" in config
+    raw = False   # raw_strings no longer restricts result types (/repo 6e4603d repaired the owned-string lowering)
     stats = {}
-    same = (not raw) and rng.random() < 0.4
+    same = rng.random() < 0.4
     parts = [f"package t:w{k};"]
     if same:
         parts.append(gen_iface(rng, "i", nfuncs, features, max_depth, max_params, True, False, stats))
@@ -608,7 +608,12 @@ def gen_val(rng, t, depth=0, edge=False, handle=None):
         return "(l" + "".join(" " + sub(t[1]) for _ in range(int(t[2]))) + ")"
     if k == "map":
         n = rng.choice([0, 1, 2, 4, 9]) if depth < 2 else rng.choice([0, 1, 2])
-        return "(l" + "".join(f" (r {sub(t[1])} {sub(t[2])})" for _ in range(n)) + ")"
+        keys = [sub(t[1]) for _ in range(n)]
+        if handle is not None:
+            # values that carry handles: a key occurs once (an overwritten entry would drop its handles while
+            # the value is being built, which is the builder's business, not the bindings')
+            keys = list(dict.fromkeys(keys))
+        return "(l" + "".join(f" (r {kk} {sub(t[2])})" for kk in keys) + ")"
     if k in ("record", "tuple"):
         return "(r" + "".join(" " + sub(f) for f in t[1:]) + ")"
     if k == "variant":
